@@ -159,6 +159,7 @@ fn plan(prop: &str, o: &mut Out) {
         "C14" => {
             g_frag(o, &all);
             g_maxlen_fmt(o, &all);
+            g_swallow_invalid(o, &all);
         }
         "C15" => {
             // the same inputs through every type able to take them; compare.py groups the answers
@@ -202,6 +203,8 @@ fn plan(prop: &str, o: &mut Out) {
             g_mutations(o, &["b64", "big"]);
             g_targeted_invalid(o);
             g_long_valid(o, &["b32", "b64", "b128", "dyn"]);
+            g_huge_digits(o, &["b32", "b64", "b128", "dyn"]);
+            g_swallow_invalid(o, &all);
             g_specials(o);
             g_bytes(o);
             g_conv_errors(o);
@@ -250,6 +253,11 @@ fn main() {
         std::panic::set_hook(Box::new(|_| {}));
     }
     match args.get(1).map(|s| s.as_str()) {
+        // the facts extracted from an error text (diagnostic; DESIGN §13 on reworded messages)
+        Some("facts") => {
+            let (k, a, b) = ops::err_facts(&args[2..].join(" "));
+            println!("{}:{}:{}", k, a, b);
+        }
         Some("run") => {
             let mut input = String::new();
             std::io::stdin().read_to_string(&mut input).unwrap();
